@@ -50,7 +50,7 @@ ATOMS = [
     "datetime.date(2020, 1, 2)", "/a/b",
 ]
 SMALL = [None, True, 0, 1, 2 ** 31, 0.0, float("nan"), "", "a", "|", "__DDS_NONE__", pathlib.PurePosixPath("a")]
-KEYS = ["a", "", "|", 0, 1, None]
+KEYS = ["a", "", "|", 0, 1, None, "1", "0", "None", True, 1.0, "1.0"]
 
 
 def canon(v):
@@ -151,7 +151,7 @@ def depth1(atoms, keys, small):
             out.append({k: a})
         for a in small:
             out.append(collections.OrderedDict([(k, a)]))
-    for k1, k2 in itertools.permutations(keys[:4], 2):
+    for k1, k2 in itertools.permutations(keys[:5], 2):
         for a, b in itertools.product(small[:6], repeat=2):
             out.append({k1: a, k2: b})
     out.append(DC0())
